@@ -936,7 +936,7 @@ def hostile_flood(r, idx):
     cfg = base_cfg(r)
     cfg["server"] = {"idle_ms": 20000}
     cfg["client"] = {"idle_ms": 20000}
-    kind = r.choice(["pathchal", "newcid", "newcid_rpt", "retirecid", "ping", "maxdata", "stream1", "ackdup", "ackbad"])
+    kind = r.choice(["pathchal", "newcid", "newcid_rpt", "newcid_jump", "retirecid", "ping", "maxdata", "stream1", "ackdup", "ackbad"])
     if kind == "pathchal":
         fb = b"".join(bytes([0x1a]) + bytes(r.randrange(256) for _ in range(8)) for _ in range(40))
     elif kind == "newcid":
@@ -947,6 +947,11 @@ def hostile_flood(r, idx):
         first = r.choice([30, 40, 60])
         fb = b"".join(bytes([0x18]) + _var(s) + _var(s) + bytes([8]) + bytes(r.randrange(256) for _ in range(8))
                       + bytes(r.randrange(256) for _ in range(16)) for s in range(first, first + 24))
+    elif kind == "newcid_jump":
+        # ... and so must frames that each retire a whole block of never-seen IDs
+        step = r.choice([20, 45, 49])
+        fb = b"".join(bytes([0x18]) + _var(step * k) + _var(step * k) + bytes([8]) + bytes(r.randrange(256) for _ in range(8))
+                      + bytes(r.randrange(256) for _ in range(16)) for k in range(1, 25))
     elif kind == "ackbad":
         # ACK frames whose ranges run below zero, overlap, or start above the largest acknowledged
         def ack(largest, first, more):
